@@ -80,6 +80,10 @@ fn run_transition<'a>(fx: &'a Fx, hist: &[Op], op: &Op, slot: &mut Option<World<
     t
 }
 
+/// Distinct full signatures forwarded per invariant family (text before the first ':'); later
+/// contexts of the same family are pooled so that every family stays visible in the printed list.
+static FAMILIES: std::sync::Mutex<BTreeMap<String, Vec<String>>> = std::sync::Mutex::new(BTreeMap::new());
+
 fn merge_out(r: &Report, out: &StepOut, hist: &[Op]) {
     for (k, n) in &out.outcomes {
         r.outcome_n(k, *n);
@@ -93,14 +97,27 @@ fn merge_out(r: &Report, out: &StepOut, hist: &[Op]) {
             r.machinery_error(&format!("{sig} history={:?} {extra}", hist.iter().map(|o| o.enc()).collect::<Vec<_>>()));
             continue;
         }
+        let family = sig.split(':').next().unwrap_or("").to_string();
+        let sig2 = {
+            let mut g = FAMILIES.lock().unwrap();
+            let v = g.entry(family.clone()).or_default();
+            if v.iter().any(|x| x == sig) {
+                sig.clone()
+            } else if v.len() < 2 {
+                v.push(sig.clone());
+                sig.clone()
+            } else {
+                format!("{family}:(further contexts)")
+            }
+        };
         r.violation(
-            sig,
-            json!({"case": {"history": hist.iter().map(|o| o.enc()).collect::<Vec<_>>()}, "what": extra}),
+            &sig2,
+            json!({"case": {"history": hist.iter().map(|o| o.enc()).collect::<Vec<_>>()}, "what": extra, "full_signature": sig}),
         );
     }
 }
 
-fn explore(r: &Report, fx: &Fx, phase: &str, menu: &[Op], max_depth: usize, cap_frac: f64) {
+fn explore(r: &Report, fx: &Fx, phase: &str, menu: &[Op], max_depth: usize, cap_frac: f64) -> bool {
     let mut seen: HashSet<[u8; 32]> = HashSet::new();
     let mut root_to_content: HashMap<[u8; 32], String> = HashMap::new();
     let mut content_to_root: HashMap<String, [u8; 32]> = HashMap::new();
@@ -230,7 +247,9 @@ fn explore(r: &Report, fx: &Fx, phase: &str, menu: &[Op], max_depth: usize, cap_
     r.add_traces(transitions);
     r.eval(transitions);
     r.note(&format!("bfs_{phase}"), json!({"menu_size": menu.len(), "max_depth": max_depth, "completed_depth": completed_depth,
-        "states": states, "transitions": transitions, "new_states_per_depth": per_depth, "distinct_index_roots": root_to_content.len()}));
+        "states": states, "transitions": transitions, "new_states_per_depth": per_depth, "distinct_index_roots": root_to_content.len(),
+        "closed_under_the_alphabet": frontier.is_empty()}));
+    frontier.is_empty()
 }
 
 fn replay(r: &Report, fx: &Fx, path: &std::path::Path) {
@@ -297,13 +316,16 @@ fn main() {
     let depth = std::env::var("C17_DEPTH")
         .ok()
         .and_then(|s| s.parse().ok())
-        .unwrap_or(r.pick(5usize, 7usize));
+        .unwrap_or(r.pick(5usize, 16usize));
     if r.quick() {
         explore(&r, &fx, "full", &plain_menu(), depth, 0.8);
     } else {
-        // full alphabet one level deeper than quick, then a core alphabet to the full depth
-        explore(&r, &fx, "full", &plain_menu(), depth.saturating_sub(1), 0.30);
-        explore(&r, &fx, "core", &core_menu(), depth, 0.60);
+        // full alphabet until no new state appears (closure of the reachable space under the dedup key)
+        // or the depth / wall bound; if it did not close, a core alphabet is pushed deeper
+        let closed = explore(&r, &fx, "full", &plain_menu(), depth, 0.50);
+        if !closed {
+            explore(&r, &fx, "core", &core_menu(), depth + 2, 0.75);
+        }
         fsprefix::run(&r, &fx);
     }
 
